@@ -82,6 +82,50 @@ def specs():
     return S
 
 
+def specs256():
+    """std::math::u256: stack [b7..b0, a7..a0, ...] (most significant limb on top) -> [c7..c0, ...];
+    reference = schoolbook limb arithmetic with explicit carries / borrows (linear, no 256-bit terms)"""
+    def ab(v):
+        return [v[15 - i] for i in range(8)], [v[7 - i] for i in range(8)]  # a_i, b_i with i = 0 least significant
+
+    def add(c, s, v):
+        a, b = ab(v)
+        out, carry = [], z3.IntVal(0)
+        for i in range(8):
+            t = a[i] + b[i] + carry
+            carry = z3.If(t >= T32, 1, 0)
+            out.append(t - carry * T32)
+        return dict(out=[("int", x) for x in reversed(out)])
+
+    def sub(c, s, v):
+        a, b = ab(v)
+        out, borrow = [], z3.IntVal(0)
+        for i in range(8):
+            t = a[i] - b[i] - borrow
+            borrow = z3.If(t < 0, 1, 0)
+            out.append(t + borrow * T32)
+        return dict(out=[("int", x) for x in reversed(out)])
+
+    bv = lambda x: z3.Int2BV(x, 32)  # noqa: E731
+    ib = z3.BV2Int
+
+    def bitwise(f):
+        def g(c, s, v):
+            a, b = ab(v)
+            return dict(out=[("int", ib(f(bv(a[i]), bv(b[i])))) for i in reversed(range(8))])
+        return g
+
+    S = {}
+    S["add_unsafe"] = (16, add)
+    S["sub_unsafe"] = (16, sub)
+    S["and"] = (16, bitwise(lambda x, y: x & y))
+    S["or"] = (16, bitwise(lambda x, y: x | y))
+    S["xor"] = (16, bitwise(lambda x, y: x ^ y))
+    S["iszero_unsafe"] = (8, lambda c, s, v: dict(out=[flag(z3.And([v[i] == 0 for i in range(8)]))]))
+    S["eq_unsafe"] = (16, lambda c, s, v: dict(out=[flag(z3.And([v[i] == v[8 + i] for i in range(8)]))]))
+    return S
+
+
 def shift_spec(kind, n):
     def f(c, s, v):
         a = v[0] * T32 + v[1]  # [a_hi, a_lo] after the pushed count was consumed: stack is [n, a_hi, a_lo]
@@ -97,10 +141,14 @@ def shift_spec(kind, n):
     return f
 
 
+def qual(name):
+    return name if "::" in name else f"u64::{name}"
+
+
 def check_proc(meta, interp, name, src, nops, fn, V, cov, stdlib=True):
     a = masmsym.assemble([src], stdlib=stdlib)[0]
     if a["status"] != "ok":
-        V.add(f"u64::{name}", "inconclusive", detail=f"assembler: {str(a)[:200]}")
+        V.add(qual(name), "inconclusive", detail=f"assembler: {str(a)[:200]}")
         return
 
     def pre(it, init):
@@ -110,12 +158,12 @@ def check_proc(meta, interp, name, src, nops, fn, V, cov, stdlib=True):
     try:
         paths = masmsym.run_mast(interp, meta, a["root"], overflow_items=K, pre=pre)
     except Unsupported as e:
-        V.add(f"u64::{name}", "not-covered", detail=f"outside the interpreter's subset: {e}")
+        V.add(qual(name), "not-covered", detail=f"outside the interpreter's subset: {e}")
         return
     cov["paths"] += len(paths)
     n_ok = 0
     for pi, res in enumerate(paths):
-        tag = f"u64::{name}#p{pi}"
+        tag = f"{qual(name)}#p{pi}"
         if res.outcome != "ok":
             V.add(tag, "inconclusive", detail=str(res.value)[:200])
             continue
@@ -144,7 +192,7 @@ def check_proc(meta, interp, name, src, nops, fn, V, cov, stdlib=True):
                 posts.append((f"final depth {len(want)}", z3.BoolVal(False)))
             else:
                 fv = [ctx.value(x.l) for x in final]
-                a64, b64 = v[2] * T32 + v[3], v[0] * T32 + v[1]
+                a64, b64 = (v[2] * T32 + v[3], v[0] * T32 + v[1]) if sp.get("div") else (None, None)
                 if sp.get("div"):
                     # positions of q / r limbs on the final stack
                     pos = {w[0]: i for i, w in enumerate(sp["out"])}
@@ -195,7 +243,7 @@ def check_proc(meta, interp, name, src, nops, fn, V, cov, stdlib=True):
             else:
                 V.add(oname, "inconclusive", detail=str(info)[:200])
     if n_ok == 0:
-        V.add(f"u64::{name}:some-ok-path", "inconclusive", detail="no completed path")
+        V.add(f"{qual(name)}:some-ok-path", "inconclusive", detail="no completed path")
 
 
 def item(ctx, got, want):
@@ -207,6 +255,17 @@ def item(ctx, got, want):
 
 
 def ref_concrete(name, st):
+    if name.startswith("u256::"):
+        n = name.split("::")[1]
+        val = lambda ls: sum(x << (32 * i) for i, x in enumerate(reversed(ls)))  # noqa: E731
+        lim8 = lambda x: [(x >> (32 * i)) % T32 for i in reversed(range(8))]  # noqa: E731
+        if n == "iszero_unsafe":
+            return [int(all(x == 0 for x in st[:8]))] + st[8:]
+        b, a = val(st[:8]), val(st[8:16])
+        M = 2**256
+        r = {"add_unsafe": lambda: lim8((a + b) % M), "sub_unsafe": lambda: lim8((a - b) % M), "and": lambda: lim8(a & b),
+             "or": lambda: lim8(a | b), "xor": lambda: lim8(a ^ b), "eq_unsafe": lambda: [int(a == b)]}[n]()
+        return r + st[16:]
     b, a = st[0] * T32 + st[1], st[2] * T32 + st[3]
     lim = lambda x: [x // T32, x % T32]  # noqa: E731
     m = re.fullmatch(r"(shl|shr|rotl|rotr)\.(\d+)", name)
@@ -248,7 +307,7 @@ def confirm(meta, name, src, nops, res, env, oname, V, cov, stdlib):
     else:
         bad = nat["status"] != "ok" or [int(x) for x in nat["stack"]] != ref
     if bad:
-        V.violation(oname, path, f"u64::{name} on {stack[:4]}: native {nat.get('stack', nat.get('error'))!s:.100}, reference {ref!s:.100}", key=f"u64::{name}")
+        V.violation(oname, path, f"{qual(name)} on {stack[:4] if '::' not in name else stack[:16]}: native {nat.get('stack', nat.get('error'))!s:.100}, reference {ref!s:.100}", key=qual(name))
     else:
         V.add(oname, "inconclusive", detail=f"solver counterexample did not reproduce natively (operands {stack[:4]})")
 
@@ -261,11 +320,14 @@ def _worker(job):
     V = Verdict(PROP)
     cov = dict(paths=0, queries=0, solver_time_s=0.0, native_validated=0)
     t0 = time.time()
-    fn = specs()[key][1] if key in specs() else shift_spec(*key)
+    if isinstance(key, tuple) and key[0] == "u256":
+        fn = specs256()[key[1]][1]
+    else:
+        fn = specs()[key][1] if key in specs() else shift_spec(*key)
     try:
         check_proc(_W["meta"], _W["interp"], name, src, nops, fn, V, cov)
     except Exception as e:
-        V.add(f"u64::{name}", "inconclusive", detail=f"{type(e).__name__}: {e}")
+        V.add(qual(name), "inconclusive", detail=f"{type(e).__name__}: {e}")
     for o in V.obligations:
         o["detail"] = None if o["detail"] is None else str(o["detail"])[:300]
     cov["slow"] = [(name, round(time.time() - t0, 1))] if time.time() - t0 > 60 else []
@@ -290,8 +352,13 @@ def main():
         quick_counts = {"shl": [0, 33], "shr": counts, "rotl": [1, 32, rng.randrange(2, 31)], "rotr": [0, 32, rng.randrange(33, 63)]}[kind]
         for n in (counts if tier() == "thorough" else quick_counts):  # rotations / shl multiply by 2^n: heavy
             jobs.append((f"{kind}.{n}", f"use.std::math::u64 begin push.{n} exec.u64::{kind} end", 2, (kind, n)))
+    quick256 = {"add_unsafe", "sub_unsafe", "and"}  # or / xor expand to a + b - and / a + b - 2 and per limb: minutes; iszero / eq fork per limb
+    for name, (nops, fn) in specs256().items():
+        if tier() != "thorough" and name not in quick256 and f"u256::{name}" not in only and "u256" not in only:
+            continue
+        jobs.append((f"u256::{name}", f"use.std::math::u256 begin exec.u256::{name} end", nops, ("u256", name)))
     if only:
-        jobs = [j for j in jobs if j[0] in only or j[0].split(".")[0] in only]
+        jobs = [j for j in jobs if j[0] in only or j[0].split(".")[0] in only or ("u256" in only and j[0].startswith("u256::"))]
     masmsym.replay_bin()
     _W.update(meta=meta, interp=opsum.make_interp(max_paths=4000))
     import multiprocessing as mp_
@@ -312,11 +379,11 @@ def main():
         samples=V.obligations[:4] + [o for o in V.obligations if o["status"] != "discharged"][:6],
         obligations=len(V.obligations), discharged=c.get("discharged", 0), queries=cov["queries"], solver_time_s=round(cov["solver_time_s"], 1),
         procedures=[j[0] for j in jobs], slow=cov["slow"],
-        functions_encoded=["stdlib/asm/math/u64.masm (assembled by the real assembler)", "Process::execute_op and op bodies (MIR)"],
+        functions_encoded=["stdlib/asm/math/u64.masm (assembled by the real assembler)", "stdlib/asm/math/u256.masm: add_unsafe, sub_unsafe, and, or, xor, iszero_unsafe, eq_unsafe (16 symbolic 32-bit limbs, 2 items beneath)", "Process::execute_op and op bodies (MIR)"],
         bounds="operands: arbitrary 32-bit limbs, 14 arbitrary items beneath; shifts/rotations: one obligation per listed count; adversarial advice for div/mod/divmod",
-        tier_note="quick tier leaves div/mod/divmod/overflowing_mul and most shift counts to the thorough tier",
-        not_covered="u64 clz/ctz/clo/cto (pow2 of a symbolic hint: not decided), u256 procedures",
-        sources_fingerprint=repo_fingerprint(["stdlib/asm/math/u64.masm", "processor/src/operations", "assembly/src/assembler/instruction"]),
+        tier_note="quick tier leaves div/mod/divmod/overflowing_mul, most shift counts and u256 or/xor/iszero_unsafe/eq_unsafe to the thorough tier (iszero_unsafe / eq_unsafe: branch feasibility not decided within the caps when last tried: reported not-covered, not claimed)",
+        not_covered="u64 clz/ctz/clo/cto (pow2 of a symbolic hint: not decided), u256::mul_unsafe (uses procedure locals: memory contents are not modelled in Engine D)",
+        sources_fingerprint=repo_fingerprint(["stdlib/asm/math/u64.masm", "stdlib/asm/math/u256.masm", "processor/src/operations", "assembly/src/assembler/instruction"]),
         evaluations=len(V.obligations), distinct_nontrivial=c.get("discharged", 0), rule="one obligation per (procedure, path, stack item / failure condition)",
     )
     write_evidence(PROP, "model_checking", coverage, ["field axioms: " + "; ".join(AXIOMS), "limbs < 2^32 as documented", "block semantics of C06, abstract stack model (validated natively in C05)"],
